@@ -1,8 +1,12 @@
 package streams
 
 import (
+	"bufio"
 	"fmt"
 	"math/bits"
+	"os"
+	"sync"
+	"time"
 
 	"github.com/paulsonkoly/chess-3/attacks"
 	. "github.com/paulsonkoly/chess-3/chess"
@@ -20,7 +24,63 @@ import (
 // Slider cases are batched (one table row, many occupancies) because the model side has to replay
 // the init loop of the row before it can look anything up.
 func init() {
+	if os.Getenv("VERIF_C12_COLD") != "" {
+		c12Cold()
+		os.Exit(0)
+	}
 	hx.Register(&hx.Stream{Name: "c12", Gen: genC12, Run: runC12})
+}
+
+// c12Cold: the FIRST lookups of a fresh process, made by several goroutines whose starts are staggered
+// by microseconds (VERIF_C12_COLD = "<workers> <stagger in us>"). Nothing of package attacks has been
+// called before (this runs from a package initialiser of the harness, after the initialisers of the
+// engine's packages; the cases are read from stdin first). Every worker evaluates all cases; the
+// answers of worker 0, 1, ... are printed one block after the other. Tables that are built on first
+// use (or whose "ready" flag is raised before they are complete - seeded change C12-H) give a late
+// worker a half-built table; tables built at package initialisation are complete here.
+func c12Cold() {
+	var workers, stagger int
+	fmt.Sscan(os.Getenv("VERIF_C12_COLD"), &workers, &stagger)
+	if workers < 1 {
+		workers = 1
+	}
+	sc := bufio.NewScanner(os.Stdin)
+	sc.Buffer(make([]byte, 1<<20), 1<<28)
+	var lines []string
+	for sc.Scan() {
+		lines = append(lines, sc.Text())
+	}
+	st := hx.Lookup("c12")
+	if st == nil {
+		st = &hx.Stream{Name: "c12", Run: runC12}
+	}
+	outs := make([][]string, workers)
+	var wg sync.WaitGroup
+	start := make(chan struct{})
+	for k := 0; k < workers; k++ {
+		wg.Add(1)
+		go func(k int) {
+			defer wg.Done()
+			<-start
+			t0 := time.Now()
+			for time.Since(t0) < time.Duration(k*stagger)*time.Microsecond {
+			}
+			res := make([]string, len(lines))
+			for i, l := range lines {
+				res[i] = hx.SafeRun(st, l)
+			}
+			outs[k] = res
+		}(k)
+	}
+	close(start)
+	wg.Wait()
+	w := bufio.NewWriter(os.Stdout)
+	for _, res := range outs {
+		for _, l := range res {
+			fmt.Fprintln(w, l)
+		}
+	}
+	w.Flush()
 }
 
 var c12Kinds = []string{"bishop", "rook", "king", "knight", "pawn-capture", "pawn-push", "between"}
